@@ -78,6 +78,11 @@ THEOREMS (all proved for all states / schedules, no bounds):
   compares callback traces up to repetition of the same call (Model.dedup_adj), so a clean-up to one call each
   does not break any obligation, while seeded C15-r4m1 (enter once / exit twice) is still caught with a replay by
   the oracle's discipline check.
+  Round 6: schedule options "journal" (0/1/2 nested active onnx_ir.journaling.Journal()s around the whole history;
+  about half of the graph/function/recursive schedules) and "iter_args" (list arguments of extend / insert_after /
+  insert_before / remove passed as one-shot iterators, 40 %): recording must not interfere with edits or running
+  iterators, results must equal the model's.  Seeded C11-r6m3 (journal wrapper of Graph.extend consumes an
+  iterator argument) -> replay {journal:1, iter_args:true, events:[extend [5]]}: nothing appended.
   Nothing is `_partial`.  Scope notes: __getitem__/__contains__/__len__'s assertion are not translated (thin layer
   over the translated iterators); node attributes and the predicate are fixed during a schedule; insertions far
   from the cursor are stated positionally (C11_insert_position_law) rather than per API call.
@@ -204,6 +209,15 @@ class Impl:
                 self.c = g
         self.back = {id(o): h for h, o in self.objs.items()}
 
+    iter_args = False
+
+    def args(self, xs):
+        """the node-list argument of extend / insert_after / insert_before / remove: a list, or (schedule option
+        "iter_args") a one-shot iterator, which the callee may consume only once"""
+        if self.iter_args:
+            return (self.objs[x] for x in xs)
+        return [self.objs[x] for x in xs]
+
     def h(self, o):
         return self.back.get(id(o), 0)
 
@@ -227,11 +241,11 @@ class Impl:
             if op == "append":
                 c.append(O[e[1]])
             elif op == "extend":
-                c.extend([O[x] for x in e[1]])
+                c.extend(self.args(e[1]))
             elif op == "ins_after":
-                c.insert_after(O[e[1]], [O[x] for x in e[2]])
+                c.insert_after(O[e[1]], self.args(e[2]))
             elif op == "ins_before":
-                c.insert_before(O[e[1]], [O[x] for x in e[2]])
+                c.insert_before(O[e[1]], self.args(e[2]))
             elif op == "ins_after1":
                 c.insert_after(O[e[1]], O[e[2]])
             elif op == "ins_before1":
@@ -239,7 +253,7 @@ class Impl:
             elif op == "remove":
                 c.remove(O[e[1]])
             elif op == "remove_many":
-                c.remove([O[x] for x in e[1]])
+                c.remove(self.args(e[1]))
             elif op == "sort":
                 c.sort()
             elif op == "get":
@@ -289,8 +303,25 @@ class _limit:
         return False
 
 
+def _journals(stack, n):
+    """schedule option "journal": n nested active onnx_ir.journaling.Journal()s around the whole history
+    (recording must observe without interfering with edits or running iterators)"""
+    if n:
+        from onnx_ir import journaling
+        for _ in range(n):
+            stack.enter_context(journaling.Journal())
+
+
 def run_impl(sched: dict) -> list[dict]:
+    import contextlib
+    with contextlib.ExitStack() as stack:
+        _journals(stack, sched.get("journal", 0))
+        return _run_impl(sched)
+
+
+def _run_impl(sched: dict) -> list[dict]:
     im = Impl(sched["kind"], sched["init"], sched.get("deps"), sched.get("universe", 8))
+    im.iter_args = bool(sched.get("iter_args"))
     out = []
     for e in sched["events"]:
         try:
@@ -767,7 +798,9 @@ def gen_schedule(rng, kind, steps, ncur, universe=6):
         elif op == "sort":
             sp.extend(spec_sort(sp.l, deps))
         events.append(e)
-    return {"kind": kind, "init": init, "deps": deps, "universe": universe, "events": events}
+    return {"kind": kind, "init": init, "deps": deps, "universe": universe, "events": events,
+            "journal": rng.choice([0, 0, 0, 1, 1, 2]) if kind != "dls" else 0,
+            "iter_args": rng.random() < 0.4}
 
 
 def alphabet(elems):
@@ -837,6 +870,13 @@ class RecImpl:
         self.gback[id(self.func)] = 0          # callbacks of a traversal over the Function get the Function
         self.cbs = []           # trace of the current event: 3*gid enter_graph, 3*gid+1 exit_graph, 3*node+2 recursive(node)
 
+    iter_args = False
+
+    def args(self, xs):
+        if self.iter_args:
+            return (self.objs[x] for x in xs)
+        return [self.objs[x] for x in xs]
+
     def do(self, e):
         O, op = self.objs, e[0]
         self.cbs = []
@@ -880,9 +920,9 @@ class RecImpl:
             elif sub == "remove":
                 g.remove(O[e[3]])
             elif sub == "ins_after":
-                g.insert_after(O[e[3]], [O[x] for x in e[4]])
+                g.insert_after(O[e[3]], self.args(e[4]))
             elif sub == "ins_before":
-                g.insert_before(O[e[3]], [O[x] for x in e[4]])
+                g.insert_before(O[e[3]], self.args(e[4]))
             else:
                 raise AssertionError(e)
             return ("ok", None)
@@ -894,7 +934,15 @@ class RecImpl:
 
 
 def run_rec(sched):
+    import contextlib
+    with contextlib.ExitStack() as stack:
+        _journals(stack, sched.get("journal", 0))
+        return _run_rec(sched)
+
+
+def _run_rec(sched):
     im = RecImpl(sched["inits"])
+    im.iter_args = bool(sched.get("iter_args"))
     out = []
     for e in sched["events"]:
         try:
@@ -1073,7 +1121,8 @@ def gen_rec(rng, steps):
                 events.append(["ed", gid, "ins_after", rng.choice(pool), xs])
             else:
                 events.append(["ed", gid, "ins_before", rng.choice(pool), xs])
-    return {"kind": "rec", "inits": inits, "events": events}
+    return {"kind": "rec", "inits": inits, "events": events,
+            "journal": rng.choice([0, 0, 0, 1, 2]), "iter_args": rng.random() < 0.4}
 
 
 REC_SUBS_F = "[(1,[1;2]);(11,[3]);(2,[4;5])]"
@@ -1172,6 +1221,11 @@ def shrink(sched):
                 c2["events"] = ev2
             if fails(c2):
                 cur, changed = c2, True
+        for key, val in (("journal", 0), ("journal", 1), ("iter_args", False)):
+            if cur.get(key) and cur.get(key) != val:
+                c2 = dict(cur, **{key: val})
+                if fails(c2):
+                    cur, changed = c2, True
         if cur["kind"] != "rec":
             for i in range(len(cur["init"]) - 1, -1, -1):
                 c2 = dict(cur, init=cur["init"][:i] + cur["init"][i + 1:])
